@@ -589,10 +589,14 @@ def main(ck):
           dq = np.zeros(m.nv)
           dq[dof] = val
 
+          idx = info.tree_qpos[t]
+
           def fn(mm, dd):
+            # write ONLY the target tree's coordinates: mj_integratePos re-normalises every quaternion of the vector,
+            # which would make the harness itself modify (by an ulp) the qpos of other, possibly sleeping, trees
             q = np.array(dd.qpos)
             lib.mj_integratePos(mm, q, dq, 1.0)
-            dd.qpos[:] = q
+            dd.qpos[idx] = q[idx]
           both(fn)
           wakes = True
         else:
@@ -684,6 +688,27 @@ def main(ck):
 
   ck.run_hypothesis(test, st.tuples(scene(), ops_strategy(ck.budget(40, 60)), st.booleans()), ck.budget(500, 8000),
                     name='sleep-history')
+
+
+
+def replay(ck, body):
+  """./verif <ID> --replay <violation file>: run exactly the recorded case through the same test function."""
+  from vf import mj
+  rec = body.get('case') or {}
+  if 'case' not in rec or 'check' not in rec:
+    raise NotImplementedError('replay file carries no generated case (bucket %s)' % body.get('bucket'))
+
+  def run_one(test, strategy, max_examples, name='main', **kw):
+    if name != rec['check']:
+      return True
+    try:
+      test(rec['case'])
+      return True
+    except (Violation, AssertionError, mj.MjError) as e:
+      ck.violation('%s: %s' % (type(e).__name__, e), rec, bucket=getattr(e, 'bucket', None) or name)
+      return False
+  ck.run_hypothesis = run_one
+  main(ck)
 
 
 LEVEL = 'exploration'
